@@ -3,11 +3,12 @@ CONF = {
     "technique": "property-based testing (rapid) at CLI level: generated case directories linted by the built falco binary under all six flag combinations; differential oracle against a reference verdict computed from the library's diagnostics with the case's rule overrides, plus cross-run equality of exit status and reported counts",
     "level_text": "Every generated case runs `falco lint` six times ({plain,-json} x {default,-v,-vv}). Exploration of generated programs, include layouts and override sets only.",
     "cli": True,
-    "campaigns": [rapid("rapid", 400, 12000, bq=60, bt=1500)],
+    "campaigns": [rapid("rapid", 640, 16000, bq=70, bt=1500)],
     "floors": {"verdict:clean": 0.03, "verdict:warnings-only": 0.05, "verdict:infos-only": 0.01, "verdict:errors": 0.2, "verdict:syntax-error": 0.1,
                "syntax:main": 0.04, "syntax:module": 0.04, "snippet": 0.05, "config": 0.25, "override-effective": 0.05, "override-flips-verdict": 0.01, "ignore-comment": 0.05},
     "assumptions": [
-        "the reference verdict uses falco's own parser and linter through the Go API (the property relates the command's verdict to the diagnostics, it does not judge the diagnostics); overrides and counting are re-implemented in the harness from docs/configuration.md",
+        "the reference verdict takes the diagnostics from falco's linter through the Go API (the property relates the command's verdict to the diagnostics, it does not judge them), but decides three things itself: syntax errors (every file of the case is parsed directly), ignore comments (the reference lints a copy in which each falco-ignore-next-line is an ordinary comment and removes the diagnostics on the covered line itself) and rule overrides with counting (re-implemented from docs/configuration.md)",
+        "ignore directives are generated as falco-ignore-next-line in front of one-line statements only (not in front of declarations, whose unused warnings are raised later; not in a snippet without @scope, whose statements are not linted)",
         "rule override values are matched case-insensitively and unknown values are skipped (docs/configuration.md example uses lower case; runner prints a notice for unknown values)",
         "when the input has a syntax error no counts are required; counts that are nevertheless reported must agree with each other",
     ],
